@@ -216,6 +216,14 @@ def stepAll (m : Cqm) (line : String) : Cqm × String :=
   | ["exact", atol, rtol] => match parseRat? atol, parseRat? rtol with
     | some atol, some rtol => (m, showExact m atol rtol)
     | _, _ => (m, "bad-op")
+  | ["feasw", labels, row] =>
+    -- energies of the objective and of every lhs for ONE row of a labelled sample array (any column order, superfluous columns)
+    match (if labels = "-" then some [] else (csv labels).mapM parseLabel?), (if row = "-" then some [] else (csv row).mapM parseRat?) with
+    | some ls, some rw =>
+      let en (e : Expr) := showRat (Feas.exprEnergyOfSample m.labels ls rw e)
+      let miss := (m.obj :: m.cons.map (·.e)).any (Feas.gatherMissing m.labels ls)
+      (m, s!"W {en m.obj}|{String.intercalate "," (m.cons.map fun c => en c.e)}|{bit miss}")
+    | _, _ => (m, "bad-op")
   | ["feasg", k] => match k.toNat? with
     | some k =>
       let cs := Feas.evalCons m (fun _ _ => 0)
